@@ -43,6 +43,8 @@ const TOKENS: &[&str] = &[
     "\x1b[L",
     "\x1b[S",
     "\u{e9}\u{6f22}",
+    // distinct content in every row, scrolling one or two rows off
+    "1\r\n2\r\n3\r\n4",
 ];
 
 fn alt_after(tokens: &[usize]) -> bool {
@@ -205,17 +207,15 @@ fn strings(k: usize) -> Vec<Vec<usize>> {
 }
 
 fn configs(tier: Tier) -> Vec<Cfg> {
-    let limits: &[Option<usize>] = match tier {
-        Tier::Quick => &[None, Some(0), Some(2)],
-        Tier::Thorough => &[None, Some(0), Some(1), Some(2)],
-    };
     match tier {
-        Tier::Quick => {
-            let mut v = crate::ops::cfgs(&[(2, 2), (1, 2)], limits);
-            v.push(Cfg::new(3, 2, None));
-            v
-        }
-        Tier::Thorough => crate::ops::cfgs(&[(2, 2), (3, 2), (1, 2)], limits),
+        // (2,3) has a top-anchored region that ends above the last row with the `1;2r` token
+        Tier::Quick => vec![
+            Cfg::new(2, 2, None),
+            Cfg::new(2, 3, Some(0)),
+            Cfg::new(1, 2, Some(2)),
+            Cfg::new(3, 2, None),
+        ],
+        Tier::Thorough => crate::ops::cfgs(&[(2, 2), (3, 2), (1, 2), (2, 3)], &[None, Some(0), Some(1), Some(2)]),
     }
 }
 
@@ -284,7 +284,7 @@ pub fn run(ctx: &Ctx) -> Report {
     }
     rep.samples.push(json!({"tokens": TOKENS.iter().map(|t| esc(t)).collect::<Vec<_>>() }));
     rep.samples.push(json!(esc(&strs[strs.len() / 2].iter().map(|&t| TOKENS[t]).collect::<String>())));
-    rep.rule = "all token strings of <=k tokens over a 32-token alphabet of complete texts/sequences; for each string ALL 2^(n-1) ways of cutting it into feed_str calls are covered by the cut-DAG (node = position x implementation fingerprint after a call boundary; soundness: the future of a call boundary depends only on the state), plus feed() per char; every final node is compared (visible screen, cursor, dump(), and lines() when unlimited) with the single-call result; non-trivial = distinct final nodes compared".into();
+    rep.rule = "all token strings of <=k tokens over a 33-token alphabet of complete texts/sequences; for each string ALL 2^(n-1) ways of cutting it into feed_str calls are covered by the cut-DAG (node = position x implementation fingerprint after a call boundary; soundness: the future of a call boundary depends only on the state), plus feed() per char; every final node is compared (visible screen, cursor, dump(), and lines() when unlimited) with the single-call result; non-trivial = distinct final nodes compared".into();
     rep.assumptions = vec!["cut-pattern count is the number of paths through the DAG (reported as a float)".into()];
     rep
 }
